@@ -74,13 +74,15 @@ impl Pool {
    }
 
    fn release(&self, idx: usize) {
-      let waiter = {
+      // wake every waiter (they re-check and re-queue): a waiter may be queued more than once after
+      // a spurious wake-up, so waking only the head could hand the wake-up to a stale entry
+      let waiters: Vec<Thread> = {
          let mut st = self.state.lock().unwrap();
          assert!(st.busy[idx], "sim rayon-core: releasing a free slot");
          st.busy[idx] = false;
-         st.waiters.pop_front()
+         st.waiters.drain(..).collect()
       };
-      if let Some(w) = waiter {
+      for w in waiters {
          w.unpark();
       }
    }
